@@ -16,8 +16,11 @@ rm -rf "$VERIF_SIDE"; mkdir -p "$VERIF_SIDE"
 tmp=$(mktemp)
 echo "{" > "$tmp"
 first=1
+# ONLY=<extended regex> (optional): only the seeded changes whose id matches
+ONLY="${ONLY:-.}"
 idx=0
 for d in seeded/C*-m*; do
+  echo "$(basename "$d")" | grep -Eq "$ONLY" || continue
   idx=$((idx + 1))
   [ $((idx % NSHARDS)) = "$SHARD" ] || continue
   id=$(basename "$d"); pid=${id%%-*}
